@@ -575,7 +575,11 @@ impl Connection {
                 ack_eliciting = false;
             }
 
-            pad_datagram_to_mtu |= space_id == SpaceId::Data && self.config.pad_to_mtu;
+            // Only datagrams carrying ack-eliciting data are padded to the MTU: a padded ACK-only packet
+            // counts towards bytes in flight but is never acknowledged by itself and arms no PTO, so a
+            // few of them could fill the congestion window for good.
+            pad_datagram_to_mtu |=
+                space_id == SpaceId::Data && self.config.pad_to_mtu && ack_eliciting;
 
             // Can we append more data into the current buffer?
             // It is not safe to assume that `buf.len()` is the end of the data,
